@@ -97,6 +97,13 @@ func (svr *Server) handshakeDataChannel(wsc websocket.Conn) {
 	si, ok := svr.sessions.Load(channelID)
 	if ok {
 		session = si.(*Session)
+		// 通道编号只是一个递增的计数值，不是凭证：数据通道必须与控制通道来自同一用户、同一路径
+		// （http 验证的只是数据通道自己路径的权限）
+		if session.conn.Path() != wsc.Path() || session.conn.Username() != wsc.Username() {
+			session = nil
+			code = 403
+			text = "FORBIDDEN"
+		}
 	} else {
 		code = 404
 		text = "NOT FOUND"
